@@ -70,7 +70,7 @@ def sequences(ctx):
 
 
 def check(ctx):
-    items = [(k, tuple(sorted(p.items()))) for k, p in entries.catalogue(ctx.quick)]
+    items = [(k, tuple(sorted(p.items()))) for k, p in entries.catalogue(ctx.quick) + entries.scat_catalogue(ctx.quick)]
     rs0 = pmap(crosslib.w_pure, ctx.repo, items, ctx.jobs)
     findings, samples = [], []
     cmp_ = diff = 0
